@@ -3904,7 +3904,10 @@ where
           1 => {
             if is_ident_time_data_type(self.state.cddl, ident) {
               if let Value::Integer(value) = *value.as_ref() {
-                let dt = Utc.timestamp_opt(value.try_into().unwrap(), 0);
+                // a tag 1 integer that does not fit in i64 is out of range, not a panic
+                let dt = value
+                  .try_into()
+                  .map_or(chrono::LocalResult::None, |seconds| Utc.timestamp_opt(seconds, 0));
                 if let chrono::LocalResult::None = dt {
                   self.add_error(format!(
                     "expected time data type, invalid UNIX timestamp {:?}",
